@@ -30,8 +30,12 @@ public:
     static bool factorize(Fac& fac, const ArgA& A, const ArgB& B, const Scalar& sigma)
     {
         using SpMat = typename ArgA::PlainObject;
+        using SpMatB = typename ArgB::PlainObject;
         SpMat matA = A.template selfadjointView<UploA>();
-        SpMat matB = B.template selfadjointView<UploB>();
+        // B may have another storage order or index type than A:
+        // expand it in its own type first, and then convert
+        SpMatB matBfull = B.template selfadjointView<UploB>();
+        SpMat matB = matBfull;
         SpMat mat = matA - sigma * matB;
         // SparseLU solver
         fac.isSymmetric(true);
